@@ -40,6 +40,7 @@ type Case struct {
 	Direct  bool      `json:"direct_body,omitempty"` // body attached without archiver.ProcessBody
 	Hops    int       `json:"hops"`
 	MaxHops int       `json:"max_hops"`
+	DAC     bool      `json:"disable_assets_capture,omitempty"`
 	DC      bool      `json:"domains_crawl,omitempty"` // --domains-crawl with the planted hosts
 	Planted []Planted `json:"planted,omitempty"`
 	Bucket  *Bucket   `json:"bucket,omitempty"`
@@ -63,7 +64,7 @@ func (c *Case) hash() uint64 {
 	if c.Bucket != nil {
 		fmt.Fprintf(h, "s3|%v", *c.Bucket)
 	} else {
-		fmt.Fprintf(h, "%s|%s|%d|%d|%v|%v|%s", c.Kind, c.CType, c.Hops, c.MaxHops, c.DC, c.Direct, c.Body)
+		fmt.Fprintf(h, "%s|%s|%d|%d|%v|%v|%v|%s", c.Kind, c.CType, c.Hops, c.MaxHops, c.DC, c.DAC, c.Direct, c.Body)
 	}
 	return h.Sum64()
 }
